@@ -464,7 +464,8 @@ func ParseWithIncarnationID(value, incarnationID string) (*Address, error) {
 //   - Only the "goakt" scheme is accepted (case-sensitive).
 //   - Port must be a base-10 integer.
 //   - Path may contain at most one '/' (to separate <parent>/<name>).
-//   - Raw IPv6 literals are not supported by this parser (use a hostname).
+//   - Host and port are split at the last ':', so the raw (un-bracketed) IPv6
+//     hosts that String() emits (e.g. "goakt://sys@::1:9000/name") parse back.
 //   - No semantic validation is performed. The canonical string carries no
 //     incarnation identifier, so the result has an empty IncarnationID and does
 //     not pass Validate; use ParseWithIncarnationID to restore a validatable
@@ -515,10 +516,13 @@ func Parse(addr string) (*Address, error) {
 		return nil, errors.New("address format is invalid")
 	}
 
-	host, portStr, ok := strings.Cut(hostPort, ":")
-	if !ok || strings.Contains(portStr, ":") {
+	// String() embeds the host raw, so an IPv6 host contains ':' itself: the
+	// port is whatever follows the last ':'.
+	sep := strings.LastIndexByte(hostPort, ':')
+	if sep < 0 {
 		return nil, errors.New("address format is invalid")
 	}
+	host, portStr := hostPort[:sep], hostPort[sep+1:]
 
 	parsedPort, err := strconvx.ParseInt32(portStr)
 	if err != nil {
